@@ -13,7 +13,7 @@ SPEC = {
 }
 
 CLAIM = {
-    "text": "A scripted in-memory upstream returns generated answer sections (CNAME chains of length 0-4, several A/AAAA, HTTPS records with ipv4/ipv6 hints, unrelated MX/TXT, shuffled order) to a real dnsforward.Server queried over UDP/TCP; rule sets cover names and IP literals with allow-list and exception overrides, all blocking modes, AAAA-disabled, protection/filtering flags. The oracle walks the answer in order with an independent model: the first value blocked (and not overridden for that same value) must turn the reply into the blocking-mode answer for the original question with no upstream record delivered and the upstream answer kept as the log's original answer; otherwise the upstream answer must arrive unchanged. A position sweep puts each kind of offending record at every index. Upstream answers also come with NXDOMAIN and a non-empty answer section (dangling alias). A second part (reload) keeps asking names whose upstream answer reveals a value blocked in every configuration while the engines are rebuilt through the admin API (rule changes, refresh of a large list, rule changes during which a list file cannot be opened so that the rebuild fails): no reply may deliver the upstream records; the values live in custom rules and in a subscribed list file (400 names, mostly not looked at yet by the current engine), and a name that the subscribed allowlist allows in every configuration must be delivered throughout.",
+    "text": "A scripted in-memory upstream returns generated answer sections (CNAME chains of length 0-4, several A/AAAA, HTTPS records with ipv4/ipv6 hints, unrelated MX/TXT, shuffled order) to a real dnsforward.Server queried over UDP/TCP; rule sets cover names and IP literals with allow-list and exception overrides, all blocking modes, AAAA-disabled, protection/filtering flags. The oracle walks the answer in order with an independent model: the first value blocked (and not overridden for that same value) must turn the reply into the blocking-mode answer for the original question with no upstream record delivered and the upstream answer kept as the log's original answer; otherwise the upstream answer must arrive unchanged. A position sweep puts each kind of offending record at every index. Upstream answers also come with NXDOMAIN and a non-empty answer section (dangling alias). A second part (reload) keeps asking names whose upstream answer reveals a value blocked in every configuration while the engines are rebuilt through the admin API (rule changes, refresh of a large list, rule changes during which a list file cannot be opened so that the rebuild fails): no reply may deliver the upstream records; the values live in custom rules and in a subscribed list file (400 names, mostly not looked at yet by the current engine), and a name that the subscribed allowlist allows in every configuration must be delivered throughout. The reload part also refreshes a small list while no file of the process can grow (RLIMIT_FSIZE), switches a configured, switched-off list on again after a restart, and one answer in twelve carries 30-70 further addresses in front.",
     "note": "Trusted: urlfilter's matching of one rule against one value. Unspecified zones counted: default-mode address when a host rule of the other family matches; IPv6-hint stripping when response filtering is not applicable.",
     "technique": "runtime monitor: reference-model oracle over scripted upstream answers, real sockets (go test -race)",
 }
